@@ -78,6 +78,7 @@ func cmdVerify(args []string) int {
 	verbose := fs.Bool("v", false, "verbose")
 	keep := fs.Bool("keep", false, "keep SMT scripts of discharged obligations")
 	list := fs.Bool("list", false, "list obligations")
+	tmo := fs.Int("timeout", 0, "solver timeout override (seconds)")
 	fs.Parse(args)
 	t0 := time.Now()
 	cfgPath := filepath.Join(verifRoot, "props", *prop+".json")
@@ -111,6 +112,9 @@ func cmdVerify(args []string) int {
 	if *tier == "thorough" {
 		E.timeoutS = 90
 	}
+	if *tmo > 0 {
+		E.timeoutS = *tmo
+	}
 	rep.E = E
 	for _, c := range cfg.Contracts {
 		var path, pkg string
@@ -138,6 +142,7 @@ func cmdVerify(args []string) int {
 		}
 		E.VerifyFunction(t.fn, t.fc)
 	}
+	E.VerifyRows()
 	E.VerifyLemmas()
 	E.extraChecks(&cfg)
 	rep.GenSeconds = time.Since(t0).Seconds()
@@ -146,6 +151,15 @@ func cmdVerify(args []string) int {
 		for _, n := range E.order {
 			o := E.obligs[n]
 			fmt.Printf("%-8s %s (%d queries)\n", o.status(), n, len(o.Queries))
+			if o.status() != "ok" {
+				nf := 0
+				for _, q := range o.Queries {
+					if q.Result != "unsat" && nf < 3 {
+						nf++
+						fmt.Printf("         -> %s [%s] where=%s path=%s\n", q.Result, o.Src, o.Where, q.Path)
+					}
+				}
+			}
 		}
 	}
 	return rep.finish()
